@@ -87,11 +87,11 @@ func (r *Runner) execChmap(a []string) string {
 	gp, gn := storeBinsF(res.GetPositiveValueStore()), storeBinsF(res.GetNegativeValueStore())
 	// the bins on the line come from the generator's run; a sparse source iterates in map order, so
 	// the float accumulation may differ in the last bits between two runs
+	r.chmapOracle(e, me.m, scale, res, resx)
+	r.chmapIndependence(e, me.m, scale)
 	if !closeFBins(showFBins(gp), a[3]) || !closeFBins(showFBins(gn), a[4]) {
 		return "STALE"
 	}
-	r.chmapOracle(e, me.m, scale, res, resx)
-	r.chmapIndependence(e, me.m, scale)
 	// what is exact in the result: the mapping it carries, the zero weight, the rescaled statistics
 	pb := res.IndexMapping.ToProto()
 	out := fmt.Sprintf("ok map=%d:%s:%s zero=%s", int(pb.Interpolation), showF(pb.Gamma), showF(pb.IndexOffset), showF(res.GetZeroCount()))
